@@ -25,6 +25,10 @@ mod state;
 mod util;
 mod vardct;
 
+/// Verification hook H5 (C16): the crate-private block transform entry points.
+#[cfg(jxl_oxide_verif)]
+pub use vardct::verif as verif_vardct;
+
 pub use error::{Error, Result};
 pub use features::render_spot_color;
 pub use image::{ImageBuffer, ImageWithRegion};
